@@ -62,6 +62,26 @@ theorem views_agree_errclass (i : Input) (r : Rec) (hup : i.ipfsUp = true) :
   · left; simpa [vS, vL] using h
   · right; exact h
 
+/-- Both views agree with the facts (Prop-level reading of the `truth_*`
+clauses): on a quiescent CID with nothing pending or failed the status is
+pinned exactly when IPFS holds the expected pin, remote exactly when allocated
+elsewhere, sharded exactly for meta entries, unpinned exactly when not in the
+pinset, an error status exactly when expected here and not held; a failed last
+operation always gives an error status; queued / in-progress statuses only
+with the matching pending operation. `v` ranges over the two views. -/
+theorem truthful (i : Input) (r : Rec) (hup : i.ipfsUp = true) (hc : r.consistent i.self = true) :
+    ∀ v, (v = status i r ∨ v = (listEntry i 0 r).getD stUnpinned) →
+      (r.settled = true →
+        (v = stPinned ↔ (r.expectedHere i.self = true ∧ r.held = true)) ∧
+        (v = stRemote ↔ r.elsewhere i.self = true) ∧
+        (v = stSharded ↔ r.isMetaPin = true) ∧
+        (v = stUnpinned ↔ r.inPinset = false) ∧
+        (isErr v = true ↔ (r.expectedHere i.self = true ∧ r.held = false))) ∧
+      (r.failed = true → isErr v = true) ∧
+      (v = stPinQueued → r.op = some ⟨.pin, .queued⟩) ∧ (v = stPinning → r.op = some ⟨.pin, .inProgress⟩) ∧
+      (v = stUnpinQueued → r.op = some ⟨.unpin, .queued⟩) ∧ (v = stUnpinning → r.op = some ⟨.unpin, .inProgress⟩) :=
+  truthful_views i r hup hc
+
 /-- the model's output meets every clause of the Spec when no CID is in the
 recorded situation -/
 theorem model_holds_partial (i : Input) (fs : List Nat) (hw : wf i = true) (h0 : 0 ∈ fs)
